@@ -599,6 +599,14 @@ Definition slice_positions (n : nat) (lo hi : option Z) (step : Z) : list nat :=
 Definition norm_pos (n : nat) (i : Z) : option nat :=
   let j := if (i <? 0)%Z then (i + Z.of_nat n)%Z else i in
   if ((0 <=? j) && (j <? Z.of_nat n))%Z then Some (Z.to_nat j) else None.
+Fixpoint norm_all (n : nat) (d : list Z) : option (list nat) :=
+  match d with
+  | [] => Some []
+  | i :: t => match norm_pos n i, norm_all n t with
+              | Some p, Some ps => Some (p :: ps)
+              | _, _ => None
+              end
+  end.
 Definition chk_ok (chk : option nat) (n : nat) : bool :=
   match chk with None => true | Some m => Nat.eqb m n end.
 (* entries meet the source axes (length, stride) from left to right *)
@@ -618,7 +626,7 @@ Fixpoint assign_axes (es : list nent) (axes : list (nat * nat)) : res (list item
       | [] => Err IndexError
       | (n, sd) :: ax =>
           if negb (chk_ok chk n) then Err IndexError
-          else match all_some (map (norm_pos n) d) with
+          else match norm_all n d with
                | None => Err OtherError
                | Some ps => rmap (cons (TAdv sh (map (fun p => p * sd) ps))) (assign_axes t ax)
                end
@@ -798,6 +806,8 @@ Definition stokes_unary (u : uop) (s : stokes (val Q)) : res (stokes (val Q)) :=
   call_unary val_uop u s.
 Definition stokes_getitem {E} (ix : index) (s : stokes (val E)) : res (stokes (val E)) :=
   smapM (on_arr (arr_getitem ix)) s.
+Definition stokes_index {E} (es : list ient) (s : stokes (val E)) : res (stokes (val E)) :=
+  smapM (on_arr (arr_index es)) s.
 Definition stokes_ravel {E} (s : stokes (val E)) : res (stokes (val E)) :=
   smapM (on_arr (fun a => Ok (arr_ravel a))) s.
 Definition stokes_reshape {E} (new : list Z) (s : stokes (val E)) : res (stokes (val E)) :=
